@@ -1,8 +1,9 @@
 import TaurexModel.Proto
 import TaurexModel.Binning
+import TaurexModel.ObsTargets
 
 namespace Taurex.Ops.C05
-open Taurex.Proto Taurex.Binning
+open Taurex.Proto Taurex.Binning Taurex.Observation Taurex.ObsTargets
 
 /-- rows of one spectrum: centres, widths (or zeros), values, errors (or zeros) -/
 def mkRows (c w s e : List Float) : List (Row Float) :=
@@ -90,7 +91,26 @@ def nativeOp (args : List String) : Option String :=
     let xs ← listOf flt
     pure (fList fF (nativeBindown xs))) args
 
+/-- `c05.obs route rows` → `_wngrid _wngrid_width noise`: the target bins of the binner built from file rows
+    `(col0, col1, col2, col3)`; route 0 `ArraySpectrum` 3 columns (wl, value, error), 1 `ArraySpectrum` 4 columns (…, width),
+    2 `TaurexSpectrum` (wn, value, noise, wn width), 3 `InstrumentFile` (wl, noise, width; sent as (wl, 0, noise, width)).
+    Fewer than two rows: rejected (mid-point widths / `np.loadtxt` layout) -/
+def obsOp (args : List String) : Option String :=
+  run (do
+    let rt ← nat
+    let rows ← listOf (listOf flt)
+    pure (rt, rows)) args >>= fun (rt, rows) =>
+  if rows.length < 2 then none else
+    let orows := rows.map (fun r => ({ wl := r.getD 0 0, v := r.getD 1 0, e := r.getD 2 0, bw := r.getD 3 0 } : ORow Float))
+    let route := match rt with
+      | 0 => Route.array3
+      | 1 => Route.array4
+      | 2 => Route.taurex
+      | _ => Route.instrument
+    let ts := routeTargets route orows
+    some (fList fF (ts.map TBin.c) ++ " " ++ fList fF (ts.map TBin.w) ++ " " ++ fList fF (instrumentNoise orows))
+
 def ops : List Op :=
-  [("c05.edges", edgesOp), ("c05.flux", fluxOp), ("c05.hist", histOp), ("c05.native", nativeOp)]
+  [("c05.edges", edgesOp), ("c05.flux", fluxOp), ("c05.hist", histOp), ("c05.native", nativeOp), ("c05.obs", obsOp)]
 
 end Taurex.Ops.C05
